@@ -206,7 +206,7 @@ func runC12(c *Ctx, phase string) {
 	u := c.U
 	c.Meta("every id of cmd/licenses.json and cmd/exceptions.json (decoded by the harness with its own structs) against GetLicenses()/GetDeprecated()/GetExceptions() as ordered lists; pairwise disjointness and case-fold uniqueness of the three lists; "+
 		"every license id executed through ValidateLicenses / ExtractLicenses / Satisfies alone, every exception id accepted after WITH and rejected alone, as 'e WITH e', in 'MIT AND e', after '+', in parentheses; "+
-		"and (orchestrator) the real generator re-run on a scratch copy with byte comparison of the three generated files. distinct = listed id; every id is a non-trivial case",
+		"and (orchestrator) the real generator re-run on a scratch copy with byte comparison of the three generated files, then re-run on four perturbed copies of the JSON (false flags omitted, order reversed, new active/deprecated/exception entries, minimal entries after deprecated ones) with the emitted ids compared against the harness' own per-entry decoding. distinct = listed id; every id is a non-trivial case",
 		true, fmt.Sprintf("active=%d deprecated=%d exceptions=%d", len(u.Active), len(u.Deprecated), len(u.Exceptions)),
 		"the JSON files in /repo/cmd are the source of truth (the property's wording); their agreement with upstream SPDX is out of scope (no network)")
 	c.Floor("json_ids_compared", int64(len(u.Active)+len(u.Deprecated)+len(u.Exceptions))*9/10)
@@ -214,6 +214,7 @@ func runC12(c *Ctx, phase string) {
 	c.Floor("exception_ids_checked", int64(len(u.Exceptions)))
 	c.Floor("set_ids_checked", int64(len(u.AllLicense)+len(u.Exceptions)))
 	c.Floor("generator_files_compared", 3)
+	c.Floor("generator_variants_run", 4)
 	judgeJSON(c)
 	judgeSets(c)
 	for _, id := range u.AllLicense {
